@@ -138,6 +138,19 @@ def gen_targets(seed: int, tier: dict, pools) -> list[dict]:
         n_mem = max(per_fam, genmodels.members_per_batch(gf, per_fam, cap=tier.get("variant_cap", 9)))
         gen_slots += [gf] * n_mem
         gen_member += list(range(n_mem))
+    from dsim.c14 import genmodels
+
+    # models containing the operators that some generated scripts use as *helper function names* (cross-kind pairs)
+    for fam in sorted({t.get("family") for t in out if str(t.get("family")).startswith("oplike:")}):
+        opname = fam.split(":", 1)[1]
+        chain_models = []
+        for j in range(2):
+            text = genmodels.op_shape_chain(rng.sub("oplike-chain", opname, j), opname)
+            if text:
+                chain_models.append({"pool": "text", "text": text})
+        for m in chain_models + pools.backend_models_of_op(opname, rng.sub("oplike-models", opname), n=1):
+            for kind, params in (("optimize", {"api": "fold_pass"}), ("optimize", {"api": "ir"})):
+                add(with_id({"kind": kind, "model": m, "family": "opmodel:" + opname, **copy.deepcopy(params)}))
     # operator families from the onnx backend node tests: a fully lifted (constant-foldable) single-node model and
     # variants differing in one attribute value, through the folding entry points
     for i in range(tier.get("op_families", 8)):
@@ -299,6 +312,7 @@ def gen_runs(seed: int, tier: dict, targets: list[dict], repo: str, failing: set
     if "gen:external" in gfams:
         gfams += ["gen:external"] * 2   # three turns in the rotation: its template needs both halves to be relevant
     custom_scripts = [t for t in by_kind["translate"] if "CUSTOM = Opset(" in t.get("src", "")]
+    oplike_fams = sorted(f for f in by_family if str(f).startswith("oplike:"))
     stateful = [k for k in objs if any(a in k for a in ('"fold_pass"', '"fold_pass_cb"', '"pass"', '"apply"'))]
     for r in range(tier["runs"]):
         rng = Rng(seed).sub("run", r)
@@ -324,8 +338,9 @@ def gen_runs(seed: int, tier: dict, targets: list[dict], repo: str, failing: set
         ops = []
         # a fixed share of every batch walks the rule-parameter families and the stateful objects systematically
         # (round-robin, not sampled), as fail-then pairs: this is where "state survives a failed operation" lives
-        if r % 5 in (0, 4) and gfams:
-            fam = gfams[(2 * (r // 5) + (r % 5) // 4) % len(gfams)]
+        slot = r % 10   # 0,4,5: rule/operator families  1,3,6: long-lived objects  2: shared opset domain  7: script then model  8,9: sampled
+        if slot in (0, 4, 5) and gfams:
+            fam = gfams[(3 * (r // 10) + (0, 4, 5).index(slot)) % len(gfams)]
             pool = [t for t in by_family[fam] if _rule_bearing(t)]
             if fam == "gen:external" and len(pool) >= 2:
                 # models loaded without their data first, then models whose data is there (same relative location)
@@ -335,7 +350,7 @@ def gen_runs(seed: int, tier: dict, targets: list[dict], repo: str, failing: set
                 k = max(1, min(4, length // 2))
                 ops = [copy.deepcopy(t) for t in rng.sample(missing, min(k, len(missing)))]
                 ops += [copy.deepcopy(t) for t in rng.sample(present, min(max(1, length - len(ops)), len(present), 5))]
-            elif len(pool) >= 2 and (r // 5) % 2 == 1 and _family_objects(pool):
+            elif len(pool) >= 2 and slot == 5 and _family_objects(pool):
                 # every member of the family through ONE long-lived object, one after the other (state keyed by the value
                 # names the members share); a third of them with an injected failure
                 template, env["template"] = "family_on_object", "family_on_object"
@@ -349,12 +364,22 @@ def gen_runs(seed: int, tier: dict, targets: list[dict], repo: str, failing: set
             elif len(pool) >= 2:
                 template, env["template"] = "pairs_family", "pairs_family"
                 ops = _pair_run(rng, pool, failing, length, changing)
-        elif r % 5 in (1, 3) and stateful:
-            ob = stateful[(2 * (r // 5) + (r % 5) // 3) % len(stateful)]
+        elif slot in (1, 3, 6) and stateful:
+            ob = stateful[(3 * (r // 10) + (1, 3, 6).index(slot)) % len(stateful)]
             if len(by_obj[ob]) >= 2:
                 template, env["template"] = "pairs_object", "pairs_object"
                 ops = _pair_run(rng, by_obj[ob], failing, length, changing)
-        elif r % 10 == 2 and len(custom_scripts) >= 2:
+        elif slot == 7 and oplike_fams:
+            # a script translation first, then models containing the operator its helper function is named after
+            fam = oplike_fams[(r // 10) % len(oplike_fams)]
+            opname = fam.split(":", 1)[1]
+            models = by_family.get("opmodel:" + opname, [])
+            if models:
+                template, env["template"] = "script_then_model", "script_then_model"
+                ops = [copy.deepcopy(rng.choice(by_family[fam]))] + [copy.deepcopy(t) for t in rng.sample(models, min(3, len(models)))]
+                if rng.chance(0.3):
+                    ops = ops[1:] + ops[:1] + [copy.deepcopy(ops[1])]   # models first, the script, a model again
+        elif slot == 2 and len(custom_scripts) >= 2:
             # scripts whose helpers live in the same custom opset domain at different versions (Opset singletons are
             # process-wide), plus revisits of long-lived OnnxFunctions
             template, env["template"] = "shared_opset_domain", "shared_opset_domain"
